@@ -77,6 +77,10 @@ inductive Op where
   | setPolicy (p : PolDesc)
   | json (j : Nat) | ownedJson
   | shrink (j : Nat)
+  /-- open a second reader over this input and make it the active one (record sets and slots are shared) -/
+  | second (inp : List UInt8)
+  /-- make the other reader the active one -/
+  | toggle
 deriving Repr
 
 def parseOp (s : String) : Option Op :=
@@ -85,6 +89,8 @@ def parseOp (s : String) : Option Op :=
   | ['o'] => some .owned
   | ['p'] => some .pos
   | ['y'] => some .ownedJson
+  | ['w'] => some .toggle
+  | 'T' :: rest => (unhex (String.ofList rest)).map .second
   | 'j' :: j => (String.ofList j).toNat?.map .json
   | 'h' :: j => (String.ofList j).toNat?.map .shrink
   | 's' :: j => (String.ofList j).toNat?.map .set
@@ -157,6 +163,16 @@ structure St where
   sets : List RecordSet := [{}, {}, {}]
   slots : List (Option (Nat × Nat)) := [none, none, none, none]
   dead : Bool := false
+  /-- the inactive one of two readers sharing the record sets (ops `T<input>` / `w`) -/
+  other : Option Reader := none
+  /-- its captured positions (the slots belong to the reader they were taken from) -/
+  otherSlots : List (Option (Nat × Nat)) := [none, none, none, none]
+  /-- how a second reader is opened: same capacity, policy description and chunking, no faults -/
+  mk2 : List UInt8 → Option Reader := fun _ => none
+  /-- all policy requests of both readers in the order they were made -/
+  glog : List (Nat × Option Nat) := []
+
+def St.total (s : St) : Nat := s.r.log.length + (match s.other with | some o => o.log.length | none => 0)
 
 def fuelOf (r : Reader) : Nat := 2 * r.br.src.inp.length + 2 * r.br.src.script.length + 16
 
@@ -222,6 +238,14 @@ def step (s : St) (op : Op) : St × String :=
     match s.sets[j]? with
     | some rs => (s, s!"H{rs.npos}")
     | none => (s, "bad-op")
+  | .second inp =>
+    match s.mk2 inp with
+    | some r2 => ({ s with other := some s.r, r := r2, otherSlots := s.slots, slots := [none, none, none, none] }, "W")
+    | none => (s, "bad-op")
+  | .toggle =>
+    match s.other with
+    | some o => ({ s with r := o, other := some s.r, slots := s.otherSlots, otherSlots := s.slots }, "W")
+    | none => (s, "W")
   | .ownedJson =>
     let (r, o) := next (fuelOf s.r) s.r
     match o with
@@ -290,6 +314,16 @@ structure St where
   sets : List RecordSet := [{}, {}, {}]
   slots : List (Option (Nat × Nat)) := [none, none, none, none]
   dead : Bool := false
+  /-- the inactive one of two readers sharing the record sets (ops `T<input>` / `w`) -/
+  other : Option Reader := none
+  /-- its captured positions (the slots belong to the reader they were taken from) -/
+  otherSlots : List (Option (Nat × Nat)) := [none, none, none, none]
+  /-- how a second reader is opened: same capacity, policy description and chunking, no faults -/
+  mk2 : List UInt8 → Option Reader := fun _ => none
+  /-- all policy requests of both readers in the order they were made -/
+  glog : List (Nat × Option Nat) := []
+
+def St.total (s : St) : Nat := s.r.log.length + (match s.other with | some o => o.log.length | none => 0)
 
 def fuelOf (r : Reader) : Nat := 2 * r.br.src.inp.length + 2 * r.br.src.script.length + 16
 
@@ -350,6 +384,14 @@ def step (s : St) (op : Op) : St × String :=
     match s.sets[j]? with
     | some rs => (s, s!"H{rs.positions.length}")
     | none => (s, "bad-op")
+  | .second inp =>
+    match s.mk2 inp with
+    | some r2 => ({ s with other := some s.r, r := r2, otherSlots := s.slots, slots := [none, none, none, none] }, "W")
+    | none => (s, "bad-op")
+  | .toggle =>
+    match s.other with
+    | some o => ({ s with r := o, other := some s.r, slots := s.otherSlots, otherSlots := s.slots }, "W")
+    | none => (s, "W")
   | .ownedJson =>
     let (r, o) := next (fuelOf s.r) s.r
     match o with
@@ -781,24 +823,38 @@ def runReaderCase (toks : List String) (alloc : Bool := false) (impl : Option St
         if alloc then
           let r3 := ops.foldl AllocDrv.faStep (({ r := r } : Fa.St), ({} : AllocDrv.G), [])
           (r3.1, r3.2.2)
-        else runOps Fa.step (fun s => s.r.log.length) ({ r := r } : Fa.St) ops
+        else runOps (fun (s : Fa.St) op =>
+            let (s', x) := Fa.step s op
+            let added := s'.total - s.total
+            ({ s' with glog := s.glog ++ s'.r.log.drop (s'.r.log.length - added) }, x))
+          (fun s => s.glog.length)
+          ({ r := r, mk2 := fun i => some (Fasta.mkReader i cap pol.toPol [] chunk []) } : Fa.St) ops
       let hist := if alloc then "" else if sf.isEmpty && !s.dead then FaHist.check inp cap pol.toPol script chunk ops outs.reverse else ""
       let ai := match impl with
         | some o => if alloc then "" else ImplObs.judgeFa inp script sf ops o
         | none => ""
-      some (";".intercalate outs.reverse ++ " L=" ++ logStr s.r.log, Fa.specStr inp ++ hist ++ ai)
+      let seconds := ops.filterMap fun op => match op with | .second i => some i | _ => none
+      let spec2 := String.join (seconds.map fun i => " || " ++ Fa.specStr i)
+      some (";".intercalate outs.reverse ++ " L=" ++ logStr (if alloc then s.r.log else s.glog), Fa.specStr inp ++ spec2 ++ hist ++ ai)
     else if fmt = "fq" then
       let r := Fastq.mkReader inp cap pol.toPol script chunk sf
       let (s, outs) : Fq.St × List String :=
         if alloc then
           let r3 := ops.foldl AllocDrv.fqStep (({ r := r } : Fq.St), ({} : AllocDrv.G), [])
           (r3.1, r3.2.2)
-        else runOps Fq.step (fun s => s.r.log.length) ({ r := r } : Fq.St) ops
+        else runOps (fun (s : Fq.St) op =>
+            let (s', x) := Fq.step s op
+            let added := s'.total - s.total
+            ({ s' with glog := s.glog ++ s'.r.log.drop (s'.r.log.length - added) }, x))
+          (fun s => s.glog.length)
+          ({ r := r, mk2 := fun i => some (Fastq.mkReader i cap pol.toPol [] chunk []) } : Fq.St) ops
       let hist := if alloc then "" else if !s.dead then FqHist.check inp cap pol.toPol script chunk sf ops outs.reverse else ""
       let ai := match impl with
         | some o => if alloc then "" else ImplObs.judgeFq inp script sf ops o
         | none => ""
-      some (";".intercalate outs.reverse ++ " L=" ++ logStr s.r.log, Fq.specStr inp ++ hist ++ ai)
+      let seconds := ops.filterMap fun op => match op with | .second i => some i | _ => none
+      let spec2 := String.join (seconds.map fun i => " || " ++ Fq.specStr i)
+      some (";".intercalate outs.reverse ++ " L=" ++ logStr (if alloc then s.r.log else s.glog), Fq.specStr inp ++ spec2 ++ hist ++ ai)
     else none
   | _ => none
 
